@@ -138,4 +138,41 @@ static void charvec_push(struct charvec *v, char c)
 }
 static int verif_toupper(int c) { return (c >= 'a' && c <= 'z') ? c - 32 : c; }
 static int verif_tolower(int c) { return (c >= 'A' && c <= 'Z') ? c + 32 : c; }
+
+/* ---- std::string of at most 15 characters (file names: 1 + 1 + 7): the operations used by the
+        extracted name-construction code, with their std::string semantics (trusted) ------------------- */
+struct cstr { unsigned n; char d[16]; };
+static unsigned long g_diag;
+static void cstr_push(struct cstr *s, char c)
+{
+  __CPROVER_assert(s->n < 15, "model: short string");
+  if (s->n < 15) s->d[s->n] = c;
+  s->n++;
+}
+static struct cstr cstr_rtrim(struct cstr s)            /* stringutil::rtrim: strip trailing spaces */
+{
+  while (s.n > 0 && s.d[s.n - 1] == ' ') s.n--;
+  return s;
+}
+static struct cstr cstr_dir_dot_name(char dir, struct cstr name)   /* string(1, dir) + "." + name */
+{
+  struct cstr r; unsigned i;
+  r.n = 0; cstr_push(&r, dir); cstr_push(&r, '.');
+  for (i = 0; i < 7; ++i) if (i < name.n) cstr_push(&r, name.d[i]);
+  __CPROVER_assert(name.n <= 7, "model: DFS names have at most 7 characters");
+  return r;
+}
+static bool cstr_has_char(const struct cstr *s, char c)            /* s.find(c) != npos */
+{
+  unsigned i; _Bool f = 0;
+  for (i = 0; i < 15; ++i) if (i < s->n && s->d[i] == c) f = 1;
+  return f;
+}
+static bool cstr_is(const struct cstr *s, const char *lit)          /* s == "literal" (at most 2 chars used) */
+{
+  unsigned k = 0;
+  while (k < 3 && lit[k]) k++;
+  if (s->n != k) return 0;
+  return (k < 1 || s->d[0] == lit[0]) && (k < 2 || s->d[1] == lit[1]);
+}
 #endif
